@@ -16,7 +16,7 @@ HEAD = '''//go:build verif
 package join
 
 /*@ theory joins
-;; theory wiring
+;; theory wiring lists
 @*/
 '''
 IFACES = '''
@@ -80,10 +80,10 @@ TEMPLATE = r'''
   ensures (=> (= result1 vnil) (not (= result0 vnil)))
 @*/
 /*@ func join.@F@With$1
-  props C09
+  props C09 C20
   theory joins
   requires (and (not (= {srcController} vnil)) (not (= {dst} vnil)) (not (= {filterFn} vnil)) (not (= {log} vnil)))
-  ghost lastObjs : (Slice V) := {objs}
+  ghost lastObjs : (Slice V) := seq-empty
   ghost listOK : Bool := false
   ghost lastFilter : V := vnil
   at call(Cache) assert [reads-the-source-cache] (= $recv {srcController})
@@ -93,9 +93,13 @@ TEMPLATE = r'''
   at call(dyncall).after assume [the-selection-function-returns-a-filter] (not (= $result vnil))
   at call(dyncall).after set lastFilter := $result
   at call(Refilter) assert [refilters-its-own-clone-with-that-filter] (and (= $recv {dst}) (= $0 lastFilter) listOK)
+  ghost refiltered : Bool := false
+  at call(Refilter) set refiltered := true
+  exit [refilters-unless-the-source-cache-could-not-be-listed] (or refiltered (not listOK))
+  at go() assert [opt:callbacks-refilter-serially-on-the-monitor-goroutine] false
 @*/
 /*@ func join.@F@With$2
-  props C09
+  props C09 C20 C08
   theory joins
   requires (and (not (= {dst} vnil)) (not (= {filterFn} vnil)))
   ghost lastFilter : V := vnil
@@ -103,9 +107,13 @@ TEMPLATE = r'''
   at call(dyncall).after assume [the-selection-function-returns-a-filter] (not (= $result vnil))
   at call(dyncall).after set lastFilter := $result
   at call(Refilter) assert [refilters-its-own-clone-with-that-filter] (and (= $recv {dst}) (= $0 lastFilter))
+  ghost refiltered : Bool := false
+  at call(Refilter) set refiltered := true
+  exit [always-refilters-so-the-join-becomes-ready-even-for-an-empty-source] refiltered
+  at go() assert [opt:callbacks-refilter-serially-on-the-monitor-goroutine] false
 @*/
 /*@ func join.@F@With$3
-  props C09 C11 C12
+  props C09 C11 C12 C20
   theory joins
   requires (and (not (= {dst} vnil)) (not (= {monitor} vnil)))
   ghost doneSeen : Bool := false
